@@ -162,6 +162,11 @@ func (s *Sequencer) GetNextBatch(ctx context.Context, req coresequencer.GetNextB
 	}
 OuterLoop:
 	for size < maxBytes {
+		// transactions carried over from an earlier call come before anything newer: as long as some
+		// of them did not fit, nothing further is fetched
+		if !s.pendingTxs.IsEmpty() {
+			break OuterLoop
+		}
 		// if we have exceeded maxHeightDrift, stop fetching more transactions
 		if nextDAHeight > lastDAHeight+s.maxHeightDrift {
 			s.logger.Debug("exceeded max height drift, stopping fetching more transactions")
@@ -169,8 +174,10 @@ OuterLoop:
 		}
 		// fetch the next batch of transactions from DA using the helper
 		res := types.RetrieveWithHelpers(ctx, s.DA, s.logger, nextDAHeight, s.Id)
-		if res.Code == coreda.StatusError {
-			// stop fetching more transactions and return the current batch
+		if res.Code == coreda.StatusError || res.Code == coreda.StatusHeightFromFuture {
+			// stop fetching more transactions and return the current batch; the height is examined
+			// again by the next call: a height that failed or that the DA layer has not produced yet
+			// must never be skipped
 			s.logger.Warn("failed to retrieve transactions from DA layer via helper", "error", res.Message)
 			break OuterLoop
 		}
@@ -181,9 +188,12 @@ OuterLoop:
 		} else if res.Code == coreda.StatusSuccess {
 			for i, tx := range res.Data {
 				txSize := uint64(len(tx))
-				if size+txSize >= maxBytes {
-					// Push remaining transactions back to the queue
+				if size+txSize > maxBytes {
+					// Push remaining transactions back to the queue. The height is consumed: what was
+					// not released lives in the queue now, so the scan continues after it (scanning
+					// it again would release its transactions a second time).
 					s.pendingTxs.Push(res.Data[i:], res.IDs[i:], res.Timestamp)
+					nextDAHeight++
 					break OuterLoop
 				}
 				resp.Batch.Transactions = append(resp.Batch.Transactions, tx)
